@@ -46,4 +46,18 @@ PROPS = {
                        "sorted entry list; correspondence: every returned value and committed contents (hash) equal Spec; oracle: sorted vector "
                        "ordered by the implementation's own compare",
     },
+    "C09": {
+        "props_module": "RedbModel.Props.C09",
+        "streams": [("mm", [], "mm")],
+        "rule": "random programs on MultimapTable over (bytes,bytes), (u64,u64), (str,bytes): insert, bulk insert of 3..3000 values per key "
+                "(inline -> subtree spill), remove, bulk remove (subtree -> inline collapse), remove_all, get with MultimapValue::len and "
+                "iteration forwards/backwards/alternating, range both ways, len; value sizes 0, 8, around and above half a page; page sizes "
+                "512..4096; 1-6 transactions with abort/reopen; full dump through a read transaction; distinct by hash of lines, "
+                "non-trivial if the program completed",
+        "trusted_base": BASE_TRUST + ["modelled, not verified: observable behaviour of multimap_table.rs / multimap_btree.rs as MultiSpec (inline vs subtree representation is not modelled; both are held to the same spec)"],
+        "assumptions": ["inverted ranges are not generated"],
+        "explanation": "Lean: MultiSpec laws (WF preserved, no duplicate pairs, values sorted, len = number of pairs, key vanishes with its last "
+                       "value) for all comparators satisfying CmpLaws (proved for all built-in types); correspondence: every answer and the "
+                       "committed contents equal MultiSpec; oracle: nested sorted vectors ordered by the implementation's compare",
+    },
 }
